@@ -52,6 +52,14 @@ Theorem C02_every_path :
 Proof. intros M. exact text_pieces. Qed.
 Print Assumptions C02_every_path.
 
+(* The only elements whose direct text children are NOT escaped are script and style (raw
+   text elements); every other element name is `ordinary` for this property.  Decided
+   against the regenerated _NO_ESCAPE_TAG_NAMES. *)
+Theorem C02_raw_text_elements :
+  no_escape_names = [[115;99;114;105;112;116]; [115;116;121;108;101]].
+Proof. reflexivity. Qed.
+Print Assumptions C02_raw_text_elements.
+
 (* non-vacuity / sanity: the map on a string with all three metacharacters *)
 Example C02_example :
   html_escape false [60; 97; 38; 98; 62; 38] =
